@@ -199,6 +199,7 @@ class Path:
         self.edge_count = {}
         self.escaped = set()    # alloca names whose address escaped
         self.rstores = {}       # root -> tuple of (off, size, var) stores seen on this path
+        self.known = {}         # branch condition expr -> value decided earlier on this path
         self.truncated = False
 
     def clone(self):
@@ -213,6 +214,7 @@ class Path:
         p.edge_count = dict(self.edge_count)
         p.escaped = set(self.escaped)
         p.rstores = dict(self.rstores)
+        p.known = dict(self.known)
         return p
 
     # ---- expression of an operand -----------------------------------------
@@ -224,6 +226,8 @@ class Path:
             e = self.env.get(v.name)
             if e is None:
                 raise AnalysisError("value %s used before definition on path in %s" % (v.name, self.fn.name))
+            if self.known and e in self.known:
+                return ("c", int_bits(v.ty) or 1, self.known[e])
             return e
         if k == "arg":
             return ("arg", v.d["idx"])
@@ -503,6 +507,7 @@ def enumerate_paths(fn, module, loop_bound=1, max_paths=MAX_PATHS, stop_at_calls
                     p2.edge_count[(blk.name, s.name)] = p2.edge_count.get((blk.name, s.name), 0) + 1
                 if cond:
                     p2.conds.append(cond)
+                    p2.known[cond[0]] = 1 if cond[1] else 0
                 stack.append((p2, s, blk))
         elif t.op == "switch":
             c = path.ev(t.cond)
@@ -525,6 +530,8 @@ def enumerate_paths(fn, module, loop_bound=1, max_paths=MAX_PATHS, stop_at_calls
                     p2.edge_count[(blk.name, s.name)] = p2.edge_count.get((blk.name, s.name), 0) + 1
                 if cond:
                     p2.conds.append(cond)
+                    if cond[1] != "default":
+                        p2.known[cond[0]] = cond[1]
                 stack.append((p2, s, blk))
         else:
             raise AnalysisError("unexpected terminator %s" % t.op)
@@ -541,24 +548,26 @@ def strip_casts(e):
     return e
 
 
-def contains(e, pred):
-    """Does any sub-expression satisfy pred?"""
-    if pred(e):
-        return True
-    if isinstance(e, tuple):
-        for x in e:
-            if isinstance(x, tuple) and contains(x, pred):
-                return True
-    return False
+def _is_expr(x):
+    return isinstance(x, tuple) and len(x) > 0 and isinstance(x[0], str)
 
 
 def subexprs(e):
-    yield e
+    if _is_expr(e):
+        yield e
     if isinstance(e, tuple):
         for x in e:
             if isinstance(x, tuple):
                 for y in subexprs(x):
                     yield y
+
+
+def contains(e, pred):
+    """Does any sub-expression satisfy pred?"""
+    for x in subexprs(e):
+        if pred(x):
+            return True
+    return False
 
 
 def field_of(ptr, fn, module):
@@ -592,3 +601,67 @@ def is_assert_fail_path(p):
     if p.ret_inst is not None and p.ret_inst.op == "unreachable":
         return True
     return False
+
+
+class NoValue(Exception):
+    pass
+
+
+def eval_concrete(e, env):
+    """Evaluate an expression to an unsigned int given values for atom expressions (env: expr -> int).
+    Raises NoValue if an atom without value is met."""
+    if e in env:
+        return env[e]
+    k = e[0]
+    if k == "c":
+        return e[2]
+    if k == "null":
+        return 0
+    if k == "cast":
+        op, fb, tb, a = e[1], e[2], e[3], e[4]
+        v = eval_concrete(a, env)
+        if op == "zext":
+            return v & mask(fb)
+        if op == "trunc":
+            return v & mask(tb)
+        if op == "sext":
+            v &= mask(fb)
+            if v >> (fb - 1):
+                v -= 1 << fb
+            return v & mask(tb)
+        raise NoValue(e)
+    if k == "b":
+        op, bits, a, b = e[1], e[2], eval_concrete(e[3], env), eval_concrete(e[4], env)
+        r = fold_bin(op, bits, ("c", bits, a & mask(bits)), ("c", bits, b & mask(bits)))
+        if r is None:
+            raise NoValue(e)
+        return r[2]
+    if k == "icmp":
+        a, b = e[2], e[3]
+        bits = expr_bits(a) or expr_bits(b)
+        if bits is None:
+            raise NoValue(e)
+        va, vb = eval_concrete(a, env), eval_concrete(b, env)
+        return fold_icmp(e[1], ("c", bits, va & mask(bits)), ("c", bits, vb & mask(bits)))[2]
+    if k == "sel":
+        return eval_concrete(e[2] if eval_concrete(e[1], env) else e[3], env)
+    raise NoValue(e)
+
+
+def expr_bits(e):
+    k = e[0]
+    if k == "c":
+        return e[1]
+    if k == "cast":
+        return e[3]
+    if k == "b":
+        return e[2]
+    if k == "icmp":
+        return 1
+    if k == "sel":
+        return expr_bits(e[2]) or expr_bits(e[3])
+    if k in ("rmw",):
+        return None
+    if k == "ld":
+        return e[2] * 8 if e[2] else None
+    return None
